@@ -199,7 +199,7 @@ def expected_tree(node):
     raise ValueError(t)
 
 
-SAFE_TIGHT = {'(', ')', '[', ']', ',', '/', '//', '|', '=', '!=', '||'}
+SAFE_TIGHT = {'(', ')', '[', ']', ',', '/', '//', '|', '=', '!=', '||', '{', '}', ':=', '=>', '!', '::', '@'}
 WORDS = {'or', 'and', 'div', 'idiv', 'mod', 'to', 'union', 'intersect', 'except', 'eq', 'ne', 'lt', 'le', 'gt', 'ge',
          'is', 'instance', 'of', 'treat', 'as', 'castable', 'cast'}
 
@@ -209,6 +209,12 @@ def layout(toks, rng, version, mode):
     punctuation where that cannot change tokenisation, and (2.0+) nested comments."""
     if mode == 'canon':
         return ' '.join(toks)
+    parts = layout_parts(toks, rng, version)
+    return ''.join(parts)
+
+
+def layout_parts(toks, rng, version):
+    """[lead, tok0, sep1, tok1, ..., trail] for the varied layout (separators at odd positions after lead)."""
     out = []
     for i, tk in enumerate(toks):
         if i:
@@ -236,7 +242,7 @@ def layout(toks, rng, version, mode):
         out.append(tk)
     lead = rng.choice(['', ' ', '\n', '(: lead :)' if version != '1.0' else ' '])
     trail = rng.choice(['', ' ', '\n', ' (: trail :)' if version != '1.0' else ' '])
-    return lead + ''.join(out) + trail
+    return [lead] + out + [trail]
 
 
 def nonassoc_chains(rng, version):
